@@ -291,6 +291,14 @@ def run(e: Engine, rep: Report):
              'turns it into RuntimeError and the session dies with a 421 '
              'instead of the reply it had sent')
     r719(e, rep)
+    rep.rule('R7.20', 'what the edge session collects per recipient lives '
+             'as long as the envelope: every attribute of SmtpSession that '
+             'RCPT accumulates into (other than the envelope itself) is set '
+             'anew where MAIL binds a fresh Envelope - a rejected message '
+             'keeps its envelope until the next MAIL, so state that is only '
+             'cleared where the envelope is dropped leaks into the next '
+             'transaction')
+    r720(e, rep)
     rep.floor('R7.1', 10, 'callback sites')
     rep.floor('R7.3', 12, 'command handlers')
     rep.floor('R7.4', 10, 'mutable reply sends')
@@ -1661,4 +1669,91 @@ def r719(e: Engine, rep: Report):
     rep.ok('R7.19', SERVER, '%d method(s) raise StopIteration directly, %d '
            'may pass it on; %d generator method(s)' % (
                len(stoppers), len(may), n),
+           reason='judged one by one', nontrivial=False)
+
+
+# ------------------------------------------------------------------ R7.20
+_ACCUMULATE = ('add', 'append', 'extend', 'update', 'insert', 'setdefault',
+               'appendleft')
+
+
+def r720(e: Engine, rep: Report):
+    c = e.p.classes.get(SESSION)
+    if c is None or 'RCPT' not in c.methods:
+        rep.error('anchor vanished: %s.RCPT' % SESSION)
+        return
+
+    def closure(m, depth=0):
+        out = [m]
+        if depth < 3:
+            for x in walk_own(m.node):
+                if isinstance(x, ast.Call) and \
+                        isinstance(x.func, ast.Attribute) and \
+                        isinstance(x.func.value, ast.Name) and \
+                        x.func.value.id == 'self' and \
+                        x.func.attr in c.methods and \
+                        c.methods[x.func.attr] not in out:
+                    out += closure(c.methods[x.func.attr], depth + 1)
+        return out
+
+    def self_attr(x):
+        return x.attr if isinstance(x, ast.Attribute) and \
+            isinstance(x.value, ast.Name) and x.value.id == 'self' else None
+    acc = {}
+    for m in closure(c.methods['RCPT']):
+        for x in walk_own(m.node):
+            a = None
+            if isinstance(x, ast.Call) and \
+                    isinstance(x.func, ast.Attribute) and \
+                    x.func.attr in _ACCUMULATE:
+                a = self_attr(x.func.value)
+            elif isinstance(x, ast.AugAssign):
+                a = self_attr(x.target) or (
+                    self_attr(x.target.value)
+                    if isinstance(x.target, ast.Subscript) else None)
+            elif isinstance(x, ast.Assign):
+                for t in x.targets:
+                    if isinstance(t, ast.Subscript) and self_attr(t.value):
+                        a = self_attr(t.value)
+            if a and a != 'envelope':
+                acc.setdefault(a, (m, x))
+    binders = []
+    for mname, m in sorted(c.methods.items()):
+        for x in walk_own(m.node):
+            if isinstance(x, ast.Assign) and any(
+                    self_attr(t) == 'envelope' for t in x.targets) and \
+                    isinstance(x.value, ast.Call):
+                binders.append((m, x))
+    if not binders:
+        rep.error('anchor vanished: `self.envelope = Envelope(...)` in the '
+                  'edge session')
+        return
+    rep.functions.add(c.methods['RCPT'].qname)
+    for a, (m0, x0) in sorted(acc.items()):
+        for m, x in binders:
+            rep.evaluations += 1
+            resets = any(
+                isinstance(y, ast.Assign) and any(
+                    self_attr(t) == a for t in y.targets) or
+                (isinstance(y, ast.Call) and
+                 isinstance(y.func, ast.Attribute) and
+                 y.func.attr == 'clear' and self_attr(y.func.value) == a)
+                for mm in closure(m) for y in walk_own(mm.node))
+            rep.check(resets, 'R7.20', m.qname,
+                      '`self.%s` starts anew with the envelope' % a,
+                      '%s accumulates into `self.%s` for every accepted '
+                      'recipient (%s), and %s binds a fresh envelope without '
+                      'setting it anew: after a message that was refused '
+                      '(the envelope stays until the next MAIL) what was '
+                      'collected for it is still there - the next '
+                      'transaction of the session is judged by the '
+                      'recipients of the previous one'
+                      % (m0.name, a, ' '.join(ast.unparse(x0).split())[:50],
+                         m.name),
+                      loc=m.loc(x), reason='%s assigns / clears it' % m.name)
+    rep.evaluations += 1
+    rep.ok('R7.20', c.methods['RCPT'].qname,
+           'RCPT accumulates into %s besides the envelope; the envelope is '
+           'bound anew in %s' % (sorted(acc) or 'nothing',
+                                 sorted({m.name for m, _ in binders})),
            reason='judged one by one', nontrivial=False)
